@@ -32,9 +32,7 @@ BOUNDS = {
                 'length 4',
 }
 OUTSIDE = ('real redis / S3 / kernel aio; multi-round delivered marking '
-           '(judged by C03); mutating operations on an id that was already '
-           'removed (see the zombie cell: get/load/remove after remove are '
-           'covered)')
+           '(judged by C03)')
 STUBS = ['FakeRedis / FakeObjectStore / FakeFS+pyaio (atomic operations that '
          'yield)', 'pickle = structural box for symbolic timestamps',
          'deterministic uuid4']
@@ -125,7 +123,9 @@ def do_ops(store, ref, prefix, L, form, info, own=None, ids=None,
         qid = ids[api.choice('%starget%d' % (prefix, step), len(ids))] \
             if len(ids) > 1 else ids[0]
         live = qid in ref.m
-        sinfo = dict(step=step, op=op, live=live, **info)
+        sinfo = dict(step=step, op=op, live=live,
+                     after_late_mutation=bool(getattr(ref, 'late', False)),
+                     **info)
         if op == 'load':
             try:
                 got = list(store.load())
@@ -177,7 +177,21 @@ def do_ops(store, ref, prefix, L, form, info, own=None, ids=None,
             ref.m.pop(qid, None)
             continue
         if not live:
-            continue          # mutating a removed id: outside (zombie cell)
+            # a late operation on a removed id may fail or be ignored, but
+            # the message must stay gone (judged by the later get / load)
+            ref.late = True
+            try:
+                if op == 'set_timestamp':
+                    store.set_timestamp(qid, 77)
+                elif op == 'increment_attempts':
+                    store.increment_attempts(qid)
+                else:
+                    store.set_recipients_delivered(qid, [0])
+            except api.Unsupported:
+                raise
+            except Exception:
+                pass
+            continue
         if op == 'set_timestamp':
             ts = api.real('%sts%d' % (prefix, step), 1)
             store.set_timestamp(qid, ts)
@@ -366,4 +380,8 @@ def run_chunk(cell):
 
 
 def classify(cell, inputs, failure):
-    return {'kind': cell['kind'], 'backend': cell['backend']}
+    out = {'kind': cell['kind'], 'backend': cell['backend']}
+    info = (failure or {}).get('info') or {}
+    if 'after_late_mutation' in info:
+        out['after_late_mutation'] = bool(info['after_late_mutation'])
+    return out
